@@ -363,10 +363,12 @@ def install():
             env.rec.register(self)
 
     def get_next_id(self):
+        env = ENV
+        before = len(env.rec.log) if env is not None else 0
         v = orig_next(self)
         env = ENV
-        if env is None:
-            return v
+        if env is None or len(env.rec.log) != before:
+            return v  # no run in progress, or the draw was already recorded on an inner path (__next__ / __iter__)
         return env.rec.draw(self, v, cur_ctx())
 
     ig.IdGenerator.__init__ = __init__
